@@ -40,19 +40,6 @@ theorem BlockInv.mono {a a' : Arena} {b : Block} (h : BlockInv a b) (hm : a'.M =
   · exact Or.inl h0
   · exact Or.inr (hin _ _ hi)
 
-/-- the block of a successful allocation ends below `2^63` -/
-theorem AllocShape.hi {E a a' p sz} (hE : EnvOK E) (hwf : ArenaWF E a) (hwf' : ArenaWF E a') (sh : AllocShape E a a' p sz) :
-    p + sz < 2 ^ 63 := by
-  have := FS
-  rcases sh with ⟨_, _, hp, hsz⟩ | ⟨c, cs, hc, _, _, hle⟩ | ⟨c, hc', _, hle, _⟩
-  · have := hE.hi; omega
-  · have hw := hwf.chunks c (by rw [hc]; exact List.mem_cons_self)
-    have := hw.ptr_le; have := footer_lt hw; have := hw.hi; omega
-  · have hw := hwf'.chunks { c with ptr := p } (by rw [hc']; exact List.mem_cons_self)
-    have hf := footer_lt hw; have := hw.hi
-    have : ({ c with ptr := p } : Chunk).footer = c.footer := rfl
-    omega
-
 /-- adding the block of a successful allocation keeps the invariant -/
 theorem alloc_live {E sz p} {s s' : St} {live : List Block} (hE : EnvOK E) (inv : LiveInv E ⟨s, live⟩)
     (hwf' : ArenaWF E s'.a) (hm : s'.a.M = s.a.M) (hal : s.a.M ∣ p) (hpos : 0 < p)
@@ -80,5 +67,592 @@ theorem alloc_live {E sz p} {s s' : St} {live : List Block} (hE : EnvOK E) (inv 
     · exact Or.inl h0
     · have := (f1 _ _ hi).2
       right; right; show Disj b.ptr b.size p sz; unfold Disj at *; omega
+
+end Bump
+
+namespace Bump
+open Gen
+
+theorem pairwise_erase_rel {α} [DecidableEq α] {R : α → α → Prop} (hsymm : ∀ a b, R a b → R b a)
+    {l : List α} (hp : l.Pairwise R) {x : α} (hx : x ∈ l) : ∀ b ∈ l.erase x, R b x := by
+  induction l with
+  | nil => cases hx
+  | cons h t ih =>
+    intro b hb
+    obtain ⟨hh, ht⟩ := List.pairwise_cons.mp hp
+    by_cases he : h = x
+    · subst he
+      rw [List.erase_cons_head] at hb
+      exact hsymm _ _ (hh b hb)
+    · rw [List.erase_cons_tail (by simpa using he)] at hb
+      have hxt : x ∈ t := by
+        rcases List.mem_cons.mp hx with h1 | h1
+        · exact absurd h1.symm he
+        · exact h1
+      rcases List.mem_cons.mp hb with rfl | hb'
+      · exact hh x hxt
+      · exact ih ht hxt b hb'
+
+theorem blockOK_of_inv {a : Arena} {p sz al : Nat} (h : BlockInv a ⟨p, sz⟩) (hA : IsPow2 al) (hd : al ∣ p) :
+    BlockOK a p sz al := ⟨hA, hd, h.1, h.2.1, h.2.2.1, h.2.2.2⟩
+
+/-- `dealloc` frame (proof of C12.dealloc_contract, shared with the history theorem) -/
+theorem dealloc_frame {E p sz oal} (s : St) (hE : EnvOK E) (h : ArenaWF E s.a) (hb : BlockOK s.a p sz oal) :
+    (dealloc E p sz s).2 = .ok () ∧ ArenaWF E (dealloc E p sz s).1.a ∧ (dealloc E p sz s).1.a.M = s.a.M ∧
+    ∀ b bn, 0 < bn → InChunk s.a b bn → s.a.M ∣ b → (sz = 0 ∨ Disj b bn p sz) → InChunk (dealloc E p sz s).1.a b bn := by
+  obtain ⟨h1, h2, _, _, h5, _, h7⟩ := dealloc_spec (p := p) (sz := sz) s hE h (cur_block hE h hb)
+  refine ⟨h1, h2, h5, ?_⟩
+  intro b bn hbn ⟨x, hx, hx1, hx2⟩ hMb hd
+  rcases h7 with he | ⟨c, cs, r, hc, hcp, hr, hrle, hc'⟩
+  · rw [he]; exact ⟨x, hx, hx1, hx2⟩
+  · rw [hc] at hx
+    simp only [List.mem_cons] at hx
+    rcases hx with rfl | hx
+    · have hge : p + sz ≤ b := by unfold Disj at hd; omega
+      have hrb : r ≤ b := roundUpTo_le h.m_pos hr hMb hge
+      exact ⟨{ x with ptr := r }, by rw [hc']; exact List.mem_cons_self, hrb, hx2⟩
+    · exact ⟨x, by rw [hc']; exact List.mem_cons_of_mem _ hx, hx1, hx2⟩
+
+/-- removing a live block with `dealloc` keeps the invariant -/
+theorem dealloc_live {E p sz al} {s : St} {live : List Block} (hE : EnvOK E) (inv : LiveInv E ⟨s, live⟩)
+    (hmem : ⟨p, sz⟩ ∈ live) (hA : IsPow2 al) (hd : al ∣ p) :
+    (dealloc E p sz s).2 = .ok () ∧ LiveInv E ⟨(dealloc E p sz s).1, live.erase ⟨p, sz⟩⟩ := by
+  have hb := blockOK_of_inv (inv.blocks _ hmem) hA hd
+  obtain ⟨h1, h2, h3, h4⟩ := dealloc_frame s hE inv.wf hb
+  refine ⟨h1, h2, ?_, inv.disj.sublist (List.erase_sublist)⟩
+  intro b hbm
+  have hbl : b ∈ live := List.mem_of_mem_erase hbm
+  obtain ⟨g1, g2, g3, g4⟩ := inv.blocks b hbl
+  refine ⟨by rw [h3]; exact g1, g2, g3, ?_⟩
+  by_cases hz : b.size = 0
+  · exact Or.inl hz
+  · right
+    have hi := g4.resolve_left hz
+    have hrel := pairwise_erase_rel (fun _ _ => NoOverlap.symm) inv.disj hmem b hbm
+    apply h4 b.ptr b.size (by omega) hi g1
+    simp only [NoOverlap] at hrel
+    rcases hrel with h0 | h0 | h0
+    · exact absurd h0 hz
+    · exact Or.inl h0
+    · exact Or.inr h0
+
+/-- replacing a live block by the result of `grow`/`shrink` keeps the invariant -/
+theorem realloc_live {E p osz nsz nal q} {s s' : St} {live : List Block} (hE : EnvOK E) (inv : LiveInv E ⟨s, live⟩)
+    (hmem : ⟨p, osz⟩ ∈ live) (post : ReallocPost E s s' p osz nsz nal (.ok q)) (hhi : q + nsz < 2 ^ 63) :
+    LiveInv E ⟨s', live.erase ⟨p, osz⟩ ++ [⟨q, nsz⟩]⟩ := by
+  obtain ⟨hwf', _, hMq, hpos, hplace, hframe, _⟩ := post.ok q rfl
+  refine ⟨hwf', ?_, ?_⟩
+  · intro b hb
+    simp only [List.mem_append, List.mem_singleton] at hb
+    rcases hb with hbm | rfl
+    · have hbl : b ∈ live := List.mem_of_mem_erase hbm
+      obtain ⟨g1, g2, g3, g4⟩ := inv.blocks b hbl
+      refine ⟨by rw [post.m_eq]; exact g1, g2, g3, ?_⟩
+      by_cases hz : b.size = 0
+      · exact Or.inl hz
+      · right
+        have hi := g4.resolve_left hz
+        have hrel := pairwise_erase_rel (fun _ _ => NoOverlap.symm) inv.disj hmem b hbm
+        refine (hframe b.ptr b.size (by omega) hi ?_).1
+        simp only [NoOverlap] at hrel
+        rcases hrel with h0 | h0 | h0
+        · exact absurd h0 hz
+        · exact Or.inl h0
+        · exact Or.inr h0
+    · exact ⟨by rw [post.m_eq]; exact hMq, hpos, hhi, hplace⟩
+  · rw [List.pairwise_append]
+    refine ⟨inv.disj.sublist List.erase_sublist, List.pairwise_singleton _ _, ?_⟩
+    intro b hbm c hc
+    simp only [List.mem_singleton] at hc
+    subst hc
+    have hbl : b ∈ live := List.mem_of_mem_erase hbm
+    obtain ⟨_, _, _, g4⟩ := inv.blocks b hbl
+    simp only [NoOverlap]
+    by_cases hz : b.size = 0
+    · exact Or.inl hz
+    · have hi := g4.resolve_left hz
+      have hrel := pairwise_erase_rel (fun _ _ => NoOverlap.symm) inv.disj hmem b hbm
+      simp only [NoOverlap] at hrel
+      have := (hframe b.ptr b.size (by omega) hi (by
+        rcases hrel with h0 | h0 | h0
+        · exact absurd h0 hz
+        · exact Or.inl h0
+        · exact Or.inr h0)).2
+      rcases this with h0 | h0
+      · exact Or.inr (Or.inl h0)
+      · exact Or.inr (Or.inr h0)
+
+end Bump
+
+namespace Bump
+open Gen
+
+theorem arrayLayout_some {esz eal n t : Nat} (heal : eal ≤ 2 ^ 63) (h : arrayLayout esz eal n = some t) :
+    t = esz * n ∧ t + eal ≤ 2 ^ 63 := by
+  unfold arrayLayout at h
+  by_cases hz : esz = 0
+  · subst hz
+    simp only [ne_eq, not_true_eq_false, false_and, ↓reduceIte, Nat.zero_mul, Option.some.injEq] at h
+    subst h; exact ⟨by simp, by omega⟩
+  · have hpos : 0 < esz := Nat.pos_of_ne_zero hz
+    by_cases hn : n > (2 ^ 63 - eal) / esz
+    · rw [if_pos ⟨hz, hn⟩] at h; cases h
+    · rw [if_neg (by intro hh; exact hn hh.2)] at h
+      cases h
+      refine ⟨rfl, ?_⟩
+      have : ¬ (2 ^ 63 - eal) / esz < n := hn
+      rw [Nat.div_lt_iff_lt_mul hpos, Nat.mul_comm n esz] at this
+      omega
+
+/-- the arena did not change: the invariant carries over to any state with the same arena -/
+theorem live_same_arena {E} {s s' : St} {live : List Block} (inv : LiveInv E ⟨s, live⟩) (ha : s'.a = s.a) :
+    LiveInv E ⟨s', live⟩ := by
+  refine ⟨by show ArenaWF E s'.a; rw [ha]; exact inv.wf, ?_, inv.disj⟩
+  intro b hb
+  have := inv.blocks b hb
+  show BlockInv s'.a b
+  rw [ha]; exact this
+
+/-- a successful allocation (any flavour), packaged -/
+theorem allocPost_live {E sz al p} {s s' : St} {live : List Block} {o : Outcome Nat} (hE : EnvOK E)
+    (inv : LiveInv E ⟨s, live⟩) (sp : AllocPost E s s' sz al o) (ho : o = .ok p) :
+    LiveInv E ⟨s', live ++ [⟨p, sz⟩]⟩ := by
+  obtain ⟨hwf', _, hm, hpos, hsh, _⟩ := sp.ok p ho
+  exact alloc_live hE inv hwf' sp.m_eq hm hpos hsh
+
+theorem allocPost_fail_live {E sz al} {s s' : St} {live : List Block} {o : Outcome Nat}
+    (inv : LiveInv E ⟨s, live⟩) (sp : AllocPost E s s' sz al o) (ho : o = .err ∨ o = .panic) :
+    LiveInv E ⟨s', live⟩ := live_same_arena inv (sp.fail ho).1
+
+/-- allocate a block and give it straight back: nothing live is affected -/
+theorem alloc_dealloc_live {E sz al p} {s s' : St} {live : List Block} {o : Outcome Nat} (hE : EnvOK E)
+    (inv : LiveInv E ⟨s, live⟩) (hA : IsPow2 al) (sp : AllocPost E s s' sz al o) (ho : o = .ok p) :
+    (dealloc E p sz s').2 = .ok () ∧ LiveInv E ⟨(dealloc E p sz s').1, live⟩ := by
+  have inv1 := allocPost_live hE inv sp ho
+  obtain ⟨_, hal, _, _, _, _⟩ := sp.ok p ho
+  have hmem : (⟨p, sz⟩ : Block) ∈ live ++ [⟨p, sz⟩] := by simp
+  have hb := blockOK_of_inv (inv1.blocks _ hmem) hA hal
+  obtain ⟨h1, h2, h3, h4⟩ := dealloc_frame s' hE inv1.wf hb
+  refine ⟨h1, h2, ?_, inv.disj⟩
+  intro b hbl
+  obtain ⟨g1, g2, g3, g4⟩ := inv1.blocks b (by simp [hbl])
+  refine ⟨by rw [h3]; exact g1, g2, g3, ?_⟩
+  by_cases hz : b.size = 0
+  · exact Or.inl hz
+  · right
+    have hi := g4.resolve_left hz
+    apply h4 b.ptr b.size (by omega) hi g1
+    have hd := inv1.disj
+    rw [List.pairwise_append] at hd
+    have := hd.2.2 b hbl ⟨p, sz⟩ (by simp)
+    simp only [NoOverlap] at this
+    rcases this with h0 | h0 | h0
+    · exact absurd h0 hz
+    · exact Or.inl h0
+    · exact Or.inr h0
+
+def InnerValid : Inner → Prop
+  | .keep s a => IsPow2 a ∧ s + a ≤ 2 ^ 63
+  | .release s a => IsPow2 a ∧ s + a ≤ 2 ^ 63
+
+/-- the initialiser's own allocations: kept blocks join the live set, released ones leave no trace -/
+theorem runInner_live {E} (hE : EnvOK E) : ∀ (inner : List Inner) (s : St) (live : List Block) (acc : List Nat),
+    LiveInv E ⟨s, live⟩ → (∀ i ∈ inner, InnerValid i) →
+    (∀ w, (runInner E inner s acc).2 ≠ .bad w) ∧ (runInner E inner s acc).2 ≠ .err ∧
+    (runInner E inner s acc).2 ≠ .panic ∧
+    (∀ ps, (runInner E inner s acc).2 = .ok ps → ∃ ps', ps = acc ++ ps' ∧
+      LiveInv E ⟨(runInner E inner s acc).1, live ++ keptBlocks inner ps'⟩) := by
+  intro inner
+  induction inner with
+  | nil =>
+    intro s live acc inv _
+    simp only [runInner]
+    refine ⟨(by intro w; simp), (by simp), (by simp), ?_⟩
+    intro ps hps
+    simp only [Outcome.ok.injEq] at hps
+    exact ⟨[], by simp [hps], by simpa [keptBlocks] using inv⟩
+  | cons i rest ih =>
+    intro s live acc inv hval
+    have hvi := hval i List.mem_cons_self
+    have hvr : ∀ j ∈ rest, InnerValid j := fun j hj => hval j (List.mem_cons_of_mem _ hj)
+    cases i with
+    | keep sz al =>
+      obtain ⟨hA, hlay⟩ := hvi
+      obtain ⟨sp, hnp⟩ := tryAllocLayout_spec (sz := sz) (al := al) s hE inv.wf hA hlay
+      simp only [runInner, tryAllocOr0]
+      cases hr : tryAllocLayout E sz al s with
+      | mk s1 o1 =>
+        rw [hr] at sp hnp
+        simp only at sp hnp
+        cases o1 with
+        | ok p =>
+          simp only [bindO]
+          have inv1 := allocPost_live hE inv sp rfl
+          obtain ⟨_, _, _, hpos, _, _⟩ := sp.ok p rfl
+          obtain ⟨b1, b2, b3, b4⟩ := ih s1 (live ++ [⟨p, sz⟩]) (acc ++ [p]) inv1 hvr
+          refine ⟨b1, b2, b3, ?_⟩
+          intro ps hps
+          obtain ⟨ps', hpe, hl⟩ := b4 ps hps
+          refine ⟨p :: ps', by rw [hpe]; simp, ?_⟩
+          have hp0 : p ≠ 0 := by omega
+          simpa [keptBlocks, hp0, List.append_assoc] using hl
+        | err =>
+          simp only [bindO]
+          have inv1 : LiveInv E ⟨s1, live⟩ := allocPost_fail_live inv sp (Or.inl rfl)
+          obtain ⟨b1, b2, b3, b4⟩ := ih s1 live (acc ++ [0]) inv1 hvr
+          refine ⟨b1, b2, b3, ?_⟩
+          intro ps hps
+          obtain ⟨ps', hpe, hl⟩ := b4 ps hps
+          exact ⟨0 :: ps', by rw [hpe]; simp, by simpa [keptBlocks] using hl⟩
+        | panic => exact absurd rfl hnp
+        | bad w => exact absurd rfl (sp.nobad w)
+        | envBad =>
+          simp only [bindO]
+          exact ⟨(by intro w; simp), (by simp), (by simp), (by intro ps hps; cases hps)⟩
+    | release sz al =>
+      obtain ⟨hA, hlay⟩ := hvi
+      obtain ⟨sp, hnp⟩ := tryAllocLayout_spec (sz := sz) (al := al) s hE inv.wf hA hlay
+      simp only [runInner, tryAllocOr0]
+      cases hr : tryAllocLayout E sz al s with
+      | mk s1 o1 =>
+        rw [hr] at sp hnp
+        simp only at sp hnp
+        cases o1 with
+        | ok p =>
+          simp only [bindO]
+          obtain ⟨_, _, _, hpos, _, _⟩ := sp.ok p rfl
+          have hp0 : p ≠ 0 := by omega
+          simp only [hp0, ↓reduceIte]
+          obtain ⟨hd1, inv2⟩ := alloc_dealloc_live hE inv hA sp rfl
+          cases hdd : dealloc E p sz s1 with
+          | mk s2 o2 =>
+            rw [hdd] at hd1 inv2
+            simp only at hd1 inv2
+            subst hd1
+            simp only [bindO]
+            obtain ⟨b1, b2, b3, b4⟩ := ih s2 live (acc ++ [p]) inv2 hvr
+            refine ⟨b1, b2, b3, ?_⟩
+            intro ps hps
+            obtain ⟨ps', hpe, hl⟩ := b4 ps hps
+            exact ⟨p :: ps', by rw [hpe]; simp, by simpa [keptBlocks] using hl⟩
+        | err =>
+          simp only [bindO, ↓reduceIte]
+          have inv1 : LiveInv E ⟨s1, live⟩ := allocPost_fail_live inv sp (Or.inl rfl)
+          obtain ⟨b1, b2, b3, b4⟩ := ih s1 live (acc ++ [0]) inv1 hvr
+          refine ⟨b1, b2, b3, ?_⟩
+          intro ps hps
+          obtain ⟨ps', hpe, hl⟩ := b4 ps hps
+          exact ⟨0 :: ps', by rw [hpe]; simp, by simpa [keptBlocks] using hl⟩
+        | panic => exact absurd rfl hnp
+        | bad w => exact absurd rfl (sp.nobad w)
+        | envBad =>
+          simp only [bindO]
+          exact ⟨(by intro w; simp), (by simp), (by simp), (by intro ps hps; cases hps)⟩
+
+end Bump
+
+namespace Bump
+open Gen
+
+/-- when the reservation does not succeed, `alloc_try_with` stops there -/
+theorem atw_not_ok {E sz al} (ok : Bool) (inner : List Inner) (f : Bool) (s : St) :
+    (allocTryWith E sz al ok inner f s).1 = (allocMaybe E f sz al s).1 ∨ ∃ p, (allocMaybe E f sz al s).2 = .ok p := by
+  cases hm : (allocMaybe E f sz al s).2 with
+  | ok p => exact Or.inr ⟨p, rfl⟩
+  | _ =>
+    left
+    unfold allocTryWith
+    cases hr : allocMaybe E f sz al s with
+    | mk s1 o1 =>
+      rw [hr] at hm
+      simp only at hm
+      subst hm
+      simp [bindO]
+
+theorem atw_not_ok_res {E sz al} (ok : Bool) (inner : List Inner) (f : Bool) (s : St) :
+    ((allocMaybe E f sz al s).2 = .err → (allocTryWith E sz al ok inner f s).2 = .err) ∧
+    ((allocMaybe E f sz al s).2 = .panic → (allocTryWith E sz al ok inner f s).2 = .panic) ∧
+    ((allocMaybe E f sz al s).2 = .envBad → (allocTryWith E sz al ok inner f s).2 = .envBad) := by
+  unfold allocTryWith
+  cases hr : allocMaybe E f sz al s with
+  | mk s1 o1 =>
+    refine ⟨?_, ?_, ?_⟩ <;> intro h <;> simp only at h <;> subst h <;> simp [bindO, Res.ofOutcome]
+
+theorem limit_wf {E a} (v : Option Nat) (h : ArenaWF E a) : ArenaWF E { a with limit := v } :=
+  ⟨h.mpow, h.mle, h.chunks, h.ab, h.disj, h.sdisj, h.total⟩
+
+/-- **One step.** From a state satisfying the live-block invariant, any valid operation either
+reports an allocator-contract violation (`envBad`) or yields a state satisfying it again, and
+never an assertion failure / wrap / UB (`bad`). -/
+theorem sysStep_live {E} (hE : EnvOK E) (y : Sys) (op : Op) (inv : LiveInv E y) (hv : OpValid y op) :
+    (∀ w, (sysStep E op y).2 ≠ .bad w) ∧ ((sysStep E op y).2 ≠ .envBad → LiveInv E (sysStep E op y).1) := by
+  obtain ⟨s, live⟩ := y
+  cases op with
+  | alloc sz al f =>
+    obtain ⟨hA, hlay⟩ := hv
+    have sp := allocMaybe_spec f s hE inv.wf hA hlay
+    simp only [sysStep, step]
+    cases ho : (allocMaybe E f sz al s).2 with
+    | ok p => exact ⟨(by intro w; simp [Res.ofOutcome]), fun _ => by simpa [liveAfter, Res.ofOutcome] using allocPost_live hE inv sp ho⟩
+    | err => exact ⟨(by intro w; simp [Res.ofOutcome]), fun _ => by simpa [liveAfter, Res.ofOutcome] using allocPost_fail_live inv sp (Or.inl ho)⟩
+    | panic => exact ⟨(by intro w; simp [Res.ofOutcome]), fun _ => by simpa [liveAfter, Res.ofOutcome] using allocPost_fail_live inv sp (Or.inr ho)⟩
+    | bad w => exact absurd ho (sp.nobad w)
+    | envBad => exact ⟨(by intro w; simp [Res.ofOutcome]), fun h => absurd (by simp [Res.ofOutcome]) h⟩
+  | array esz eal n f =>
+    obtain ⟨hA, heal⟩ := hv
+    simp only [sysStep, step]
+    cases hl : arrayLayout esz eal n with
+    | none =>
+      simp only
+      cases f <;> exact ⟨(by intro w; simp), fun _ => by simpa [liveAfter] using inv⟩
+    | some total =>
+      obtain ⟨ht, hlay⟩ := arrayLayout_some heal hl
+      subst ht
+      have sp := allocMaybe_spec f s hE inv.wf hA hlay
+      simp only
+      cases ho : (allocMaybe E f (esz * n) eal s).2 with
+      | ok p => exact ⟨(by intro w; simp [Res.ofOutcome]), fun _ => by simpa [liveAfter, Res.ofOutcome] using allocPost_live hE inv sp ho⟩
+      | err => exact ⟨(by intro w; simp [Res.ofOutcome]), fun _ => by simpa [liveAfter, Res.ofOutcome] using allocPost_fail_live inv sp (Or.inl ho)⟩
+      | panic => exact ⟨(by intro w; simp [Res.ofOutcome]), fun _ => by simpa [liveAfter, Res.ofOutcome] using allocPost_fail_live inv sp (Or.inr ho)⟩
+      | bad w => exact absurd ho (sp.nobad w)
+      | envBad => exact ⟨(by intro w; simp [Res.ofOutcome]), fun h => absurd (by simp [Res.ofOutcome]) h⟩
+  | aalloc sz al =>
+    obtain ⟨hA, hlay⟩ := hv
+    obtain ⟨sp, _⟩ := tryAllocLayout_spec (sz := sz) (al := al) s hE inv.wf hA hlay
+    simp only [sysStep, step]
+    cases ho : (tryAllocLayout E sz al s).2 with
+    | ok p => exact ⟨(by intro w; simp [Res.ofOutcome]), fun _ => by simpa [liveAfter, Res.ofOutcome] using allocPost_live hE inv sp ho⟩
+    | err => exact ⟨(by intro w; simp [Res.ofOutcome]), fun _ => by simpa [liveAfter, Res.ofOutcome] using allocPost_fail_live inv sp (Or.inl ho)⟩
+    | panic => exact ⟨(by intro w; simp [Res.ofOutcome]), fun _ => by simpa [liveAfter, Res.ofOutcome] using allocPost_fail_live inv sp (Or.inr ho)⟩
+    | bad w => exact absurd ho (sp.nobad w)
+    | envBad => exact ⟨(by intro w; simp [Res.ofOutcome]), fun h => absurd (by simp [Res.ofOutcome]) h⟩
+  | afree p sz al =>
+    obtain ⟨hmem, hA, hd⟩ := hv
+    obtain ⟨h1, h2⟩ := dealloc_live (al := al) hE inv hmem hA hd
+    simp only [sysStep, step]
+    rw [h1]
+    exact ⟨(by intro w; simp [Res.ofOutcome]), fun _ => by simpa [liveAfter, Res.ofOutcome] using h2⟩
+  | agrow p osz oal nsz nal z =>
+    obtain ⟨hmem, hO, hd, hN, hle, hlay⟩ := hv
+    have hb := blockOK_of_inv (inv.blocks _ hmem) hO hd
+    have post := grow_spec s hE inv.wf hb hN hle hlay
+    simp only [sysStep, step]
+    cases hg : grow E p osz oal nsz nal s with
+    | mk s1 o1 =>
+      rw [hg] at post
+      simp only at post
+      cases o1 with
+      | ok q =>
+        have hl := realloc_live hE inv hmem post (post.hi q rfl)
+        simp only [bindO, Res.ofOutcome, liveAfter]
+        refine ⟨(by intro w; simp), fun _ => ?_⟩
+        cases z
+        · simpa using hl
+        · exact live_same_arena (s := s1) hl rfl
+      | err =>
+        simp only [bindO, Res.ofOutcome, liveAfter]
+        exact ⟨(by intro w; simp), fun _ => live_same_arena inv (post.err rfl).1⟩
+      | panic => exact absurd rfl post.nopanic
+      | bad w => exact absurd rfl (post.nobad w)
+      | envBad =>
+        simp only [bindO, Res.ofOutcome]
+        exact ⟨(by intro w; simp), fun h => absurd rfl h⟩
+  | ashrink p osz oal nsz nal =>
+    obtain ⟨hmem, hO, hd, hN, hle, hlay⟩ := hv
+    have hb := blockOK_of_inv (inv.blocks _ hmem) hO hd
+    have post := shrink_spec s hE inv.wf hb hN hle hlay
+    simp only [sysStep, step]
+    cases hg : shrink E p osz oal nsz nal s with
+    | mk s1 o1 =>
+      rw [hg] at post
+      simp only at post
+      cases o1 with
+      | ok q =>
+        have hl := realloc_live hE inv hmem post (post.hi q rfl)
+        simp only [Res.ofOutcome, liveAfter]
+        exact ⟨(by intro w; simp), fun _ => hl⟩
+      | err =>
+        simp only [Res.ofOutcome, liveAfter]
+        exact ⟨(by intro w; simp), fun _ => live_same_arena inv (post.err rfl).1⟩
+      | panic => exact absurd rfl post.nopanic
+      | bad w => exact absurd rfl (post.nobad w)
+      | envBad =>
+        simp only [Res.ofOutcome]
+        exact ⟨(by intro w; simp), fun h => absurd rfl h⟩
+  | reset =>
+    obtain ⟨_, h2, h3, _⟩ := reset_spec s inv.wf
+    simp only [sysStep, step]
+    rw [h2]
+    simp only [Res.ofOutcome, liveAfter]
+    exact ⟨(by intro w; simp), fun _ => ⟨h3, (by intro b hb; cases hb), List.Pairwise.nil⟩⟩
+  | limit v =>
+    simp only [sysStep, step, liveAfter]
+    refine ⟨(by intro w; simp), fun _ => ⟨limit_wf v inv.wf, ?_, inv.disj⟩⟩
+    intro b hb
+    exact (inv.blocks b hb).mono rfl (fun _ _ hx => hx)
+  | tfill esz eal n errat =>
+    obtain ⟨hA, heal⟩ := hv
+    simp only [sysStep, step, sliceTryFill]
+    cases hl : arrayLayout esz eal n with
+    | none => exact ⟨(by intro w; simp), fun _ => by simpa [liveAfter] using inv⟩
+    | some total =>
+      obtain ⟨ht, hlay⟩ := arrayLayout_some heal hl
+      subst ht
+      have sp := allocLayout_spec (sz := esz * n) (al := eal) s hE inv.wf hA hlay
+      simp only
+      cases hr : allocLayout E (esz * n) eal s with
+      | mk s1 o1 =>
+        rw [hr] at sp
+        simp only at sp
+        cases o1 with
+        | ok p =>
+          simp only [bindO]
+          cases errat with
+          | none =>
+            simp only [Res.ofOutcome, id, liveAfter]
+            exact ⟨(by intro w; simp), fun _ => allocPost_live hE inv sp rfl⟩
+          | some i =>
+            simp only
+            by_cases hi : i < n
+            · simp only [hi, ↓reduceIte]
+              obtain ⟨hd1, inv2⟩ := alloc_dealloc_live hE inv hA sp rfl
+              cases hdd : dealloc E p (esz * n) s1 with
+              | mk s2 o2 =>
+                rw [hdd] at hd1 inv2
+                simp only at hd1 inv2
+                subst hd1
+                simp only [bindO, Res.ofOutcome, id, liveAfter, keptBlocks, List.append_nil]
+                exact ⟨(by intro w; simp), fun _ => inv2⟩
+            · simp only [hi, ↓reduceIte, Res.ofOutcome, id, liveAfter]
+              exact ⟨(by intro w; simp), fun _ => allocPost_live hE inv sp rfl⟩
+        | err =>
+          simp only [bindO, Res.ofOutcome, liveAfter]
+          exact ⟨(by intro w; simp), fun _ => allocPost_fail_live inv sp (Or.inl rfl)⟩
+        | panic =>
+          simp only [bindO, Res.ofOutcome, liveAfter]
+          exact ⟨(by intro w; simp), fun _ => allocPost_fail_live inv sp (Or.inr rfl)⟩
+        | bad w => exact absurd rfl (sp.nobad w)
+        | envBad =>
+          simp only [bindO, Res.ofOutcome]
+          exact ⟨(by intro w; simp), fun h => absurd rfl h⟩
+  | atw sz al ok inner f =>
+    obtain ⟨hA, hlay, hin, hok⟩ := hv
+    have sp := allocMaybe_spec f s hE inv.wf hA hlay
+    simp only [sysStep, step]
+    cases hok' : ok with
+    | true =>
+      unfold allocTryWith
+      cases hm : allocMaybe E f sz al s with
+      | mk s1 o1 =>
+        rw [hm] at sp
+        simp only at sp
+        cases o1 with
+        | ok slot =>
+          have inv1 := allocPost_live hE inv sp rfl
+          obtain ⟨b1, b2, b3, b4⟩ := runInner_live hE inner s1 (live ++ [⟨slot, sz⟩]) [] inv1
+            (fun i hi => by have := hin i hi; cases i <;> exact this)
+          simp only [bindO]
+          cases hri : runInner E inner s1 [] with
+          | mk s2 o2 =>
+            rw [hri] at b1 b2 b3 b4
+            simp only at b1 b2 b3 b4
+            cases o2 with
+            | ok ps =>
+              obtain ⟨ps', hpe, hl⟩ := b4 ps rfl
+              simp only [List.nil_append] at hpe
+              subst hpe
+              simp only [↓reduceIte, Res.ofOutcome, id, liveAfter]
+              exact ⟨(by intro w; simp), fun _ => hl⟩
+            | err => exact absurd rfl b2
+            | panic => exact absurd rfl b3
+            | bad w => exact absurd rfl (b1 w)
+            | envBad =>
+              simp only [Res.ofOutcome]
+              exact ⟨(by intro w; simp), fun h => absurd rfl h⟩
+        | err =>
+          simp only [bindO, Res.ofOutcome, liveAfter]
+          exact ⟨(by intro w; simp), fun _ => allocPost_fail_live inv sp (Or.inl rfl)⟩
+        | panic =>
+          simp only [bindO, Res.ofOutcome, liveAfter]
+          exact ⟨(by intro w; simp), fun _ => allocPost_fail_live inv sp (Or.inr rfl)⟩
+        | bad w => exact absurd rfl (sp.nobad w)
+        | envBad =>
+          simp only [bindO, Res.ofOutcome]
+          exact ⟨(by intro w; simp), fun h => absurd rfl h⟩
+    | false =>
+      have hin0 : inner = [] := by
+        rcases hok with h | h
+        · rw [hok'] at h; cases h
+        · exact h
+      subst hin0
+      cases ho : (allocMaybe E f sz al s).2 with
+      | ok slot =>
+        obtain ⟨r1, r2, _, _, r5, _⟩ := atw_err_no_residue f s hE inv.wf hA hlay slot ho
+        rw [r1]
+        simp only [liveAfter, keptBlocks, List.append_nil]
+        refine ⟨(by intro w; simp), fun _ => ⟨r2, ?_, inv.disj⟩⟩
+        intro b hb
+        have hbi := inv.blocks b hb
+        rcases r5 with ha | ⟨c, _, ha⟩
+        · show BlockInv (allocTryWith E sz al false [] f s).1.a b
+          rw [ha]; exact hbi
+        · show BlockInv (allocTryWith E sz al false [] f s).1.a b
+          rw [ha]
+          exact hbi.mono rfl (fun x xn ⟨d, hd, h1, h2⟩ => ⟨d, List.mem_cons_of_mem _ hd, h1, h2⟩)
+      | err =>
+        obtain ⟨e1, _, _⟩ := atw_not_ok_res (E := E) (sz := sz) (al := al) false [] f s
+        rw [e1 ho]
+        simp only [liveAfter]
+        refine ⟨(by intro w; simp), fun _ => ?_⟩
+        rcases atw_not_ok (E := E) (sz := sz) (al := al) false [] f s with he | ⟨p, hp⟩
+        · rw [he]; exact allocPost_fail_live inv sp (Or.inl ho)
+        · rw [ho] at hp; cases hp
+      | panic =>
+        obtain ⟨_, e2, _⟩ := atw_not_ok_res (E := E) (sz := sz) (al := al) false [] f s
+        rw [e2 ho]
+        simp only [liveAfter]
+        refine ⟨(by intro w; simp), fun _ => ?_⟩
+        rcases atw_not_ok (E := E) (sz := sz) (al := al) false [] f s with he | ⟨p, hp⟩
+        · rw [he]; exact allocPost_fail_live inv sp (Or.inr ho)
+        · rw [ho] at hp; cases hp
+      | bad w => exact absurd ho (sp.nobad w)
+      | envBad =>
+        obtain ⟨_, _, e3⟩ := atw_not_ok_res (E := E) (sz := sz) (al := al) false [] f s
+        rw [e3 ho]
+        exact ⟨(by intro w; simp), fun h => absurd rfl h⟩
+
+end Bump
+
+namespace Bump
+open Gen
+
+/-- a history is admissible from `y`: every operation meets its caller obligations in the state
+it is applied to, and the allocator keeps its contract -/
+def RunOK (E : Nat) : List Op → Sys → Prop
+  | [], _ => True
+  | op :: ops, y => OpValid y op ∧ (sysStep E op y).2 ≠ .envBad ∧ RunOK E ops (sysStep E op y).1
+
+/-- **All histories.** The live-block invariant holds after every admissible history, and no
+step of it ever produces an assertion failure, a wrap-around or undefined behaviour. -/
+theorem sysRun_live {E} (hE : EnvOK E) : ∀ (ops : List Op) (y : Sys), LiveInv E y → RunOK E ops y →
+    LiveInv E (sysRun E ops y).1 ∧ ∀ r ∈ (sysRun E ops y).2, ∀ w, r ≠ .bad w := by
+  intro ops
+  induction ops with
+  | nil => intro y inv _; exact ⟨inv, by intro r hr; cases hr⟩
+  | cons op ops ih =>
+    intro y inv hrun
+    obtain ⟨hv, hne, hrest⟩ := hrun
+    obtain ⟨h1, h2⟩ := sysStep_live hE y op inv hv
+    obtain ⟨i1, i2⟩ := ih (sysStep E op y).1 (h2 hne) hrest
+    refine ⟨i1, ?_⟩
+    intro r hr
+    simp only [sysRun, List.mem_cons] at hr
+    rcases hr with rfl | hr
+    · exact h1
+    · exact i2 r hr
+
+/-- a freshly constructed arena with no live blocks satisfies the invariant -/
+theorem init_live {E a} (s : St) (h : ArenaWF E a) (hs : s.a = a) : LiveInv E ⟨s, []⟩ :=
+  ⟨(by show ArenaWF E s.a; rw [hs]; exact h), (by intro b hb; cases hb), List.Pairwise.nil⟩
 
 end Bump
